@@ -16,17 +16,17 @@ NA_FIXED = {
 ADDED = {
     'C03': "Later clauses: C03.e lane-wise value numbering of the mul and butterfly kernels (Ssse3 = Avx2 = Neon), C03.g truncated transforms get a zeroed tail (shared with C05.c), C03.h both arms of an ordering test that split a buffer differently touch the same absolute positions, alignment of aligned-load/store intrinsics in C03.b; the schedule comparison has a second opinion on fully inlined, loop-normalised forms. C03.d also: the default engine's dispatcher reaches exactly one compiled eval_poly per detected feature set. A third opinion compares deep normal forms of the schedules (helpers expanded, pure lets substituted, loops in count form, linear index arithmetic), so a one-sided behaviour-preserving rewrite of one engine is accepted while a changed index is not; code shared through a private trait or private generic functions is analysed per instantiation. C03.i byte order fixed: no native- or big-endian integer/byte conversions and no integer-to-byte-array transmutes in non-test code (shared with C08.i, C09.f, C14.g).",
     'C04': "Later clauses: C04.d also the block index of the partial block and complete rewrite of the store geometry, C04.e/f block and lane pairing, C04.g the shard size steers nothing above the store (value-flow: a branch on it may have at most one successful continuation), C04.h kernels are straight-line lane-wise code (shared with C03.e). C04.c reads a private range-building helper (`self.original_range()`) in place.",
-    'C05': "Later clauses: C05.g no mutation reaches an Err exit (shared with C07), C05.h grow-only lengths (bitmap length, Vec capacity) are read only to decide whether to grow. C05.i new and reset of the default rate decide the rate alike and validate with the selected rate (shared with C09.b); the release configuration (debug assertions off) is analysed too. C05.j the shard store rewrites its whole geometry at each resize (shared with C04.d; a write skipped behind an equality test of the same value counts). C05.e accepts a same-configuration fast path only behind a predicate comparing every configured field. The explicit reset may be two calls (configure + the implicit reset): C05.a then requires the second next to the first at every call site; C05.e also accepts the work object passed to and returned from a private helper by value, or reset directly on the stored local; C05.c accepts a tail zeroing guarded by `truncated < size`; C05.d accepts one loop over a stretch containing a region, two loops writing under complementary tests of the bitmap, and a loop over the set bits next to one writing where the bit is clear (`for`-over-`filter` loops are desugared).",
-    'C06': "Later clauses: C06.d stored configuration is the caller's and the store rewrites its whole geometry, C06.e one-shot functions hand every item to the validating add (shared with C10.b), C06.f round state is cleared at drop and reset (shared with C05.a/b), C06.g census of explicit non-debug panic sites by discharged category. C06.h every dedicated-codec use of the default rate is governed by the decision for the same counts (shared with C09.b), C06.i one predicate per codec kind, associated types included (shared with C08.a), C06.j the optimised engines run the reference schedule, so its in-range slicing holds on every engine (shared with C03.a); an error value bound once and returned at several exits is judged at each exit. C06.k a rejected call changes nothing (shared with C07.atomic). Allocation sizes (Vec::with_capacity / reserve) taken from unchecked counts are sinks; Option-returning position checks are validators. Which reset parameter is which count is derived from the flow of the callers' arguments, not from positions. Two-way selections are read as min/max (values, condition atoms, taint: a bound on max(a, b) bounds both); an Error value handed to a private helper as an argument is judged where the helper returns it, in the caller's context. `if [!]helper(..)[?]` on a private bool / Result<bool, _> helper contributes the conditions of the helper's exit that yields the value.",
+    'C05': "Later clauses: C05.g no mutation reaches an Err exit (shared with C07), C05.h grow-only lengths (bitmap length, Vec capacity) are read only to decide whether to grow. C05.i new and reset of the default rate decide the rate alike and validate with the selected rate (shared with C09.b); the release configuration (debug assertions off) is analysed too. C05.j the shard store rewrites its whole geometry at each resize (shared with C04.d; a write skipped behind an equality test of the same value counts). C05.e accepts a same-configuration fast path only behind a predicate comparing every configured field. The explicit reset may be two calls (configure + the implicit reset): C05.a then requires the second next to the first at every call site; C05.e also accepts the work object passed to and returned from a private helper by value, or reset directly on the stored local; C05.c accepts a tail zeroing guarded by `truncated < size`; C05.d accepts one loop over a stretch containing a region, two loops writing under complementary tests of the bitmap, and a loop over the set bits next to one writing where the bit is clear (`for`-over-`filter` loops are desugared). C05.k the store's insert copies the shard on every path (a copying call dominates every return): no data-dependent skip leaves earlier bytes in a slot (shared as C09.g).",
+    'C06': "Later clauses: C06.d stored configuration is the caller's and the store rewrites its whole geometry, C06.e one-shot functions hand every item to the validating add (shared with C10.b), C06.f round state is cleared at drop and reset (shared with C05.a/b), C06.g census of explicit non-debug panic sites by discharged category. C06.h every dedicated-codec use of the default rate is governed by the decision for the same counts (shared with C09.b), C06.i one predicate per codec kind, associated types included (shared with C08.a), C06.j the optimised engines run the reference schedule, so its in-range slicing holds on every engine (shared with C03.a); an error value bound once and returned at several exits is judged at each exit. C06.k a rejected call changes nothing (shared with C07.atomic). Allocation sizes (Vec::with_capacity / reserve) taken from unchecked counts are sinks; Option-returning position checks are validators. Which reset parameter is which count is derived from the flow of the callers' arguments, not from positions. Two-way selections are read as min/max (values, condition atoms, taint: a bound on max(a, b) bounds both); an Error value handed to a private helper as an argument is judged where the helper returns it, in the caller's context. `if [!]helper(..)[?]` on a private bool / Result<bool, _> helper contributes the conditions of the helper's exit that yields the value. A test `(lo..hi).contains(&x)` with bounds that are not caller-supplied bounds x on its true edge.",
     'C07': "Later: Drop impls of guards as mutation sites, mutations after the failure was produced, same-file private helpers analysed in place (inlined MIR, constant-edge pruning, producers of a re-tried Result). The release configuration (code under cfg(debug_assertions) absent) is analysed as well. Discharge V1: a mutation made by a private helper returning Result<bool, _> does not count against an Err exit taken only for the payload value on which no mutation site of the helper can have run.",
     'C08': "Later clauses: C08.d wrappers only forward (shared with C09.c), C08.e the received bitmap is sized max(base+count) of both kinds, C08.f in-place passes over fixed-size tables cover 0..len (integer constants evaluated by the driver). C08.g reset reaches every configuration (shared with C05.a/h), C08.h the acceptance conditions of the three supports predicates are atom by atom the documented ones, C08.i the optimised engines run the reference schedule (shared with C03.a). C08.j the final-block re-packing runs exactly once for every shard size (shared with C04.b).",
-    'C09': "Later clauses: C09.e the work object handed over at a rate switch is completely reconfigured (shared with C05.a), C09.f any engine: schedules and kernels of the selectable engines are siblings (shared with C03.a/e). C09.g working space reused at a switch behaves like fresh space (zero-padding clauses shared with C03.g/C05.c); calls through provided forwarders (HighRate::<E>::encoder) are resolved to their targets. C09.h the store inherited at a rate switch is completely re-described by its resize (shared with C04.d). C09.i one-shot functions return the wrapper codec's result on every path (shared with C10.a), C09.j no history lengths (shared with C05.h).",
+    'C09': "Later clauses: C09.e the work object handed over at a rate switch is completely reconfigured (shared with C05.a), C09.f any engine: schedules and kernels of the selectable engines are siblings (shared with C03.a/e). C09.g working space reused at a switch behaves like fresh space (zero-padding clauses shared with C03.g/C05.c); calls through provided forwarders (HighRate::<E>::encoder) are resolved to their targets. C09.h the store inherited at a rate switch is completely re-described by its resize (shared with C04.d). C09.i one-shot functions return the wrapper codec's result on every path (shared with C10.a), C09.j no history lengths (shared with C05.h). C09.g also: the store's insert copies on every path (C05.k).",
     'C10': "Later clauses: C10.e wrappers only forward (shared with C09.c), C10.f the iterator the one-shot decode collects from yields what the accessor exposes (shared with C12.b), C10.g no state survives between calls (shared with C05.f); once(first).chain(rest) and a one-shot function split into private helpers are understood. C10.h/i/j the streaming path both entry points share validates, reports and counts as documented (shared with C06.a/b and C11.a). C10.k the configuration registered with the work object is the caller's own (shared with C06.d). Checked-position helpers (`let pos = self.pos(i)?`) are followed on path conditions and in MIR (jump threading of inlined Result / Option values). Flow of items through a tuple built on several paths is tracked per component. C10.l every caller iterator is drained on every path to Ok (all None edges of its next() sites cut the paths to the Ok exits; shared with C09.i and C06.e); C10.a accepts several new() sites that together cut every path.",
-    'C11': "Later clauses: C11.e placement agreement between decode's bitmap regions and the base positions configured at reset, C11.f every round starts clean (shared with C05.a/b), C11.g one locator evaluation (shared with C03.d); decode_begin's payload may be a tuple, a struct or a variant of a private enum. C11.h sufficiency judged on the round's counters (shared with C06.b), C11.i the final FFT covers the positions read back, C11.j table passes complete (shared with C08.f), C11.k every position defined before the first transform (shared with C05.d), C11.l engines run one schedule (shared with C03.a); loops over (a..b).chain(c..d) are split. C11.m nothing a decode reads depends on lengths of grow-only containers (shared with C05.h). C11.n a rejected add leaves no trace (shared with C07.atomic), C11.o handed-over work is reconfigured (shared with C05.e); helpers folded over a kind enum are specialised per variant. C11.d reads `a - b == 0` as `a == b`; C11.e accepts a loop over a stretch of absolute positions that contains a configured region (using next_power_of_two(x) >= x). Literal Ok(true) / Ok(false) payloads of an inlined helper are threaded through the caller's test when consumed on the spot (C11.a).",
+    'C11': "Later clauses: C11.e placement agreement between decode's bitmap regions and the base positions configured at reset, C11.f every round starts clean (shared with C05.a/b), C11.g one locator evaluation (shared with C03.d); decode_begin's payload may be a tuple, a struct or a variant of a private enum. C11.h sufficiency judged on the round's counters (shared with C06.b), C11.i the final FFT covers the positions read back, C11.j table passes complete (shared with C08.f), C11.k every position defined before the first transform (shared with C05.d), C11.l engines run one schedule (shared with C03.a); loops over (a..b).chain(c..d) are split. C11.m nothing a decode reads depends on lengths of grow-only containers (shared with C05.h). C11.n a rejected add leaves no trace (shared with C07.atomic), C11.o handed-over work is reconfigured (shared with C05.e); helpers folded over a kind enum are specialised per variant. C11.d reads `a - b == 0` as `a == b`; C11.e accepts a loop over a stretch of absolute positions that contains a configured region (using next_power_of_two(x) >= x). Literal Ok(true) / Ok(false) payloads of an inlined helper are threaded through the caller's test when consumed on the spot (C11.a). `bits.contains(i)` is read as `bits[i]`; the function configuring a decoder's work object is found by reachability from that decoder's new / reset.",
     'C12': "Later: the iterator protocol is decided on MIR and covers overrides of Iterator methods other than next (fusedness), DoubleEndedIterator etc. C12.f the repacked range is the exposed range (shared with C04.c), C12.g a round's transform input is fully written in that round (shared with C05.c); a path-sensitive second opinion on the iterator protocol. C12.h re-packed exactly once (shared with C04.b), C12.i store geometry rewritten at each resize (shared with C04.d). C12.a accepts an inherent element accessor of the store whose body is data[index * len..(index + 1) * len] in place of its Index impl.",
     'C14': "Later clauses: C14.f polynomial evaluation only through Engine::eval_poly, C14.g engines identical: schedules, kernels and bounded/aligned vector accesses (shared with C03.a/b/e). C14.g also covers the one-eval_poly dispatch (shared with C03.d); free #[target_feature] helpers beside an engine type count as that engine's. C14.f follows private generic helpers that are handed the decoder's own engine parameter.",
     'C16': "Later: C16.a also requires that table initialisers are reached only through their LazyLock (no private recomputation of a shared table). A once-only table in a OnceLock is accepted when touched only through get / get_or_init; set / take / get_mut on it are reported.",
-    'C17': "Later clauses: C17.e the store is resized to exactly (work_count, ceil(shard_bytes/64)) and allocates count*len blocks. C17.c the supplied work object travels through every rate switch, C17.d results and iterators only borrow, C17.f the bitmap need is derived from the configuration (shared with C08.e). C17.e accepts a reset that computes the need itself as next_power_of_two(max(original_base_pos + original_count, recovery_base_pos + recovery_count)) after writing those fields; C17.g the working space stays with the codec: no Err exit between a mem::take / replace / swap of the work object (or the inner codec) and storing it back (clause shared with C07.atomic).",
+    'C17': "Later clauses: C17.e the store is resized to exactly (work_count, ceil(shard_bytes/64)) and allocates count*len blocks. C17.c the supplied work object travels through every rate switch, C17.d results and iterators only borrow, C17.f the bitmap need is derived from the configuration (shared with C08.e). C17.e accepts a reset that computes the need itself as next_power_of_two(max(original_base_pos + original_count, recovery_base_pos + recovery_count)) after writing those fields; C17.g the working space stays with the codec: no Err exit between a mem::take / replace / swap of the work object (or the inner codec) and storing it back (clause shared with C07.atomic). C17.c accepts unwrap_or_else(ctor) like unwrap_or_default (not unwrap_or(x), which builds x in any case).",
 }
 
 CLAIMS = {
